@@ -6,7 +6,7 @@
    LeafCode.v by the checks of C13 and C20 (and by C08, C09, C12, which rest on the same functions). *)
 From Coq Require Import List ZArith NArith Bool String Lia ZifyBool.
 From FFSM2 Require Import Model.Cxx Model.Bits Model.BitArray Model.BitStream Generated.LeafCode
-                          Proofs.BitsProofs Proofs.BitArrayProofs Proofs.BitStreamProofs.
+                          Proofs.BitsProofs Proofs.BitArrayProofs Proofs.BitStreamProofs Proofs.LeafTactics Proofs.LeafConsts.
 Import ListNotations.
 Local Open Scope string_scope.
 Local Open Scope Z_scope.
@@ -44,9 +44,12 @@ Ltac chain_step :=
 Theorem src_bitWidth_spec v : 0 <= v < 2 ^ 32 ->
   exists r, call1 leaf_ftable "bitWidth_u32" v = Some r /\ bw_spec v r.
 Proof.
+  (* written to survive rewrites of the function: any chain or recursion of tests of the forms v >> k == 0, v < c, v <= c is accepted *)
   intros Hv. unfold call1. sym_eval.
+  rewrite ?Z.shiftr_shiftr by lia. sym_eval.
   rewrite ?shiftr_eqb0 by lia. cbn [Z.pow Z.pow_pos Pos.iter Z.mul Pos.mul].
   repeat chain_step.
+  all: try (exfalso; lia).            (* branches the range of v excludes (a recursive formulation is unfolded further than 32 levels) *)
   all: sym_eval; eexists; (split; [reflexivity|]); unfold bw_spec; cbn [Z.pow Z.pow_pos Pos.iter Z.mul Pos.mul Z.sub Z.add Z.opp Z.pos_sub Pos.pred_double Pos.succ Pos.add]; lia.
 Qed.
 
@@ -71,274 +74,6 @@ Proof.
   exact (bw_spec_unique v _ _ S (model_bitWidth_spec v Hv)).
 Qed.
 
-
-(* ---------- symbolic execution of translated bodies ---------- *)
-
-Lemma conv_id t z : t <> TBool -> tmin t <= z <= tmax t -> conv t z = z.
-Proof.
-  intros Ht H. destruct t; try congruence; unfold conv, tmin, tmax in *; cbn [signed bits] in *;
-  cbn -[Z.modulo Z.div Z.ltb] in *.
-  all: try (rewrite Z.mod_small by lia; reflexivity).
-  all: match goal with |- context[?a <? ?b] => destruct (Z.ltb_spec a b) end; lia.
-Qed.
-Lemma arith_ok t z : t <> TBool -> tmin t <= z <= tmax t -> arith t z = Some z.
-Proof.
-  intros Ht H. destruct t; try congruence; unfold arith, tmin, tmax in *; cbn [signed bits] in *; cbn -[Z.modulo Z.leb] in *.
-  all: try (rewrite Z.mod_small by lia; reflexivity).
-  all: repeat match goal with |- context[?a <=? ?b] => destruct (Z.leb_spec a b) end; cbn; try reflexivity; lia.
-Qed.
-
-Definition result (o : outcome) : option (option Z * list (string * Z) * list (string * list Z)) :=
-  match o with
-  | ONormal st => Some (None, fields st, arrays st)
-  | OReturn st v => Some (v, fields st, arrays st)
-  | _ => None
-  end.
-
-Definition zs (b : list N) : list Z := map Z.of_N b.
-
-(* names used by the translation (access paths of data members, template parameters, instantiation names) *)
-Definition ba_obj (b : list N) : list (string * list Z) := [("_storage", zs b)].
-Definition stream_obj (buf : list N) : list (string * list Z) := [("_buffer._data", zs buf)].
-Definition cursor_fld (c : N) : list (string * Z) := [("_cursor", Z.of_N c)].
-Definition width_const (W : N) : list (string * Z) := [("NBitWidth", Z.of_N W)].
-Definition bitWidth_fn : string := "bitWidth_u32".
-
-Definition ba_consts (cap : Z) : list (string * Z) :=
-  [("NCapacity", cap); ("CAPACITY", cap); ("UNIT_COUNT", (cap + 7) / 8)].
-
-
-Ltac Zify.zify_post_hook ::= Z.to_euclidean_division_equations.
-
-Lemma pow2_range k n : 0 <= k <= n -> 1 <= 2 ^ k <= 2 ^ n.
-Proof. intros H. split; [assert (0 < 2 ^ k) by (apply Z.pow_pos_nonneg; lia); lia|apply Z.pow_le_mono_r; lia]. Qed.
-
-Lemma Zland_of_N x y : Z.land (Z.of_N x) (Z.of_N y) = Z.of_N (N.land x y).
-Proof. destruct x, y; reflexivity. Qed.
-Lemma Zlor_of_N x y : Z.lor (Z.of_N x) (Z.of_N y) = Z.of_N (N.lor x y).
-Proof. destruct x, y; reflexivity. Qed.
-Lemma Zlxor_of_N x y : Z.lxor (Z.of_N x) (Z.of_N y) = Z.of_N (N.lxor x y).
-Proof. destruct x, y; reflexivity. Qed.
-Lemma Zshiftl_of_N x k : Z.shiftl (Z.of_N x) (Z.of_N k) = Z.of_N (N.shiftl x k).
-Proof. rewrite Z.shiftl_mul_pow2 by lia. rewrite N.shiftl_mul_pow2, N2Z.inj_mul, N2Z.inj_pow. reflexivity. Qed.
-Lemma Zshiftr_of_N x k : Z.shiftr (Z.of_N x) (Z.of_N k) = Z.of_N (N.shiftr x k).
-Proof. rewrite Z.shiftr_div_pow2 by lia. rewrite N.shiftr_div_pow2, N2Z.inj_div, N2Z.inj_pow. reflexivity. Qed.
-
-Lemma Nland_le x y : (N.land x y <= x)%N.
-Proof.
-  apply N.ldiff_le. apply N.bits_inj. intro j.
-  rewrite N.ldiff_spec, N.land_spec, N.bits_0. destruct (N.testbit x j), (N.testbit y j); reflexivity.
-Qed.
-Lemma land_range a b : 0 <= a -> 0 <= b -> 0 <= Z.land a b <= a.
-Proof.
-  intros Ha Hb. rewrite <- (Z2N.id a Ha), <- (Z2N.id b Hb), Zland_of_N.
-  pose proof (Nland_le (Z.to_N a) (Z.to_N b)). lia.
-Qed.
-
-Lemma conv_u8 z : 0 <= z <= 255 -> conv TU8 z = z.  Proof. intro H. apply conv_id; [discriminate|exact H]. Qed.
-Lemma conv_u16 z : 0 <= z <= 65535 -> conv TU16 z = z.  Proof. intro H. apply conv_id; [discriminate|exact H]. Qed.
-Lemma conv_u32 z : 0 <= z <= 4294967295 -> conv TU32 z = z.  Proof. intro H. apply conv_id; [discriminate|exact H]. Qed.
-Lemma conv_u64 z : 0 <= z <= 18446744073709551615 -> conv TU64 z = z.  Proof. intro H. apply conv_id; [discriminate|exact H]. Qed.
-Lemma conv_s32 z : -2147483648 <= z <= 2147483647 -> conv TS32 z = z.  Proof. intro H. apply conv_id; [discriminate|exact H]. Qed.
-Lemma arith_s32 z : -2147483648 <= z <= 2147483647 -> arith TS32 z = Some z.  Proof. intro H. apply arith_ok; [discriminate|exact H]. Qed.
-Lemma arith_u32 z : 0 <= z <= 4294967295 -> arith TU32 z = Some z.  Proof. intro H. apply arith_ok; [discriminate|exact H]. Qed.
-Lemma arith_u8 z : 0 <= z <= 255 -> arith TU8 z = Some z.  Proof. intro H. apply arith_ok; [discriminate|exact H]. Qed.
-Lemma arith_u64 z : 0 <= z <= 18446744073709551615 -> arith TU64 z = Some z.  Proof. intro H. apply arith_ok; [discriminate|exact H]. Qed.
-
-Lemma uget_lt256 b u : Forall (fun x => (x < 256)%N) b -> 0 <= Z.of_N (uget b u) <= 255.
-Proof.
-  intros H. unfold uget. destruct (nth_in_or_default (N.to_nat u) b 0%N) as [I|E]; [|rewrite E; lia].
-  rewrite Forall_forall in H. specialize (H _ I). lia.
-Qed.
-
-Lemma Nlor_lt_pow2 a b w : (a < 2 ^ w -> b < 2 ^ w -> N.lor a b < 2 ^ w)%N.
-Proof.
-  intros Ha Hb. destruct (N.eq_dec w 0) as [->|Hw].
-  { cbn in *. assert (a = 0%N) by lia. assert (b = 0%N) by lia. subst. cbn. lia. }
-  destruct (N.eq_dec (N.lor a b) 0) as [->|Hn]; [apply N.neq_0_lt_0, N.pow_nonzero; lia|].
-  apply N.log2_lt_pow2; [lia|]. rewrite N.log2_lor. apply N.max_lub_lt.
-  - destruct (N.eq_dec a 0) as [->|Ha0]; [cbn; lia|]. apply N.log2_lt_pow2; [lia|exact Ha].
-  - destruct (N.eq_dec b 0) as [->|Hb0]; [cbn; lia|]. apply N.log2_lt_pow2; [lia|exact Hb].
-Qed.
-Lemma Nlor_lt256 a b : (a < 256 -> b < 256 -> N.lor a b < 256)%N.
-Proof. exact (Nlor_lt_pow2 a b 8). Qed.
-Lemma Npow2_range k n : (k <= n -> 1 <= 2 ^ k <= 2 ^ n)%N.
-Proof. intros H. split; [assert (2 ^ k <> 0)%N by (apply N.pow_nonzero; lia); lia|apply N.pow_le_mono_r; lia]. Qed.
-Lemma Nshiftl1_range k n : (k <= n -> 1 <= N.shiftl 1 k <= 2 ^ n)%N.
-Proof. rewrite N.shiftl_1_l. apply Npow2_range. Qed.
-Lemma Nshiftl_bound a k p q : (a < 2 ^ p -> k <= q -> N.shiftl a k < 2 ^ (p + q))%N.
-Proof.
-  intros Ha Hk. rewrite N.shiftl_mul_pow2, N.pow_add_r.
-  assert (2 ^ k <= 2 ^ q)%N by (apply N.pow_le_mono_r; lia).
-  assert (0 < 2 ^ k)%N by (apply N.neq_0_lt_0, N.pow_nonzero; lia).
-  apply N.lt_le_trans with (2 ^ p * 2 ^ k)%N; [apply N.mul_lt_mono_pos_r; assumption|apply N.mul_le_mono_l; assumption].
-Qed.
-Lemma Nshiftr_le a k : (N.shiftr a k <= a)%N.
-Proof. rewrite N.shiftr_div_pow2. apply N.div_le_upper_bound; [apply N.pow_nonzero; lia|]. 
-  assert (1 <= 2 ^ k)%N by (assert (2 ^ k <> 0)%N by (apply N.pow_nonzero; lia); lia). nia. Qed.
-Lemma Nland_range a b : (N.land a b <= a /\ N.land a b <= b)%N.
-Proof. split; [apply Nland_le|rewrite N.land_comm; apply Nland_le]. Qed.
-
-Lemma Zlnot_eq a : Z.lnot a = - a - 1.  Proof. unfold Z.lnot. lia. Qed.
-Lemma Nldiff_range a b : (N.ldiff a b <= a)%N.
-Proof.
-  apply N.ldiff_le. apply N.bits_inj. intro j. rewrite !N.ldiff_spec, N.bits_0.
-  destruct (N.testbit a j), (N.testbit b j); reflexivity.
-Qed.
-Lemma Zland_lnot_of_N x m : Z.land (Z.of_N x) (Z.lnot (Z.of_N m)) = Z.of_N (N.ldiff x m).
-Proof. rewrite <- Z.ldiff_land. destruct x, m; reflexivity. Qed.
-(* _storage[unit] &= ~mask on a byte: the model writes it as  x & (255 ^ mask) *)
-Lemma ldiff_byte x m : (x < 256)%N -> N.ldiff x m = N.land x (N.lxor 255 m).
-Proof.
-  intros Hx. apply N.bits_inj. intro j. rewrite N.ldiff_spec, N.land_spec, N.lxor_spec.
-  destruct (N.ltb_spec j 8) as [L|G].
-  - replace (N.testbit 255 j) with true; [destruct (N.testbit x j), (N.testbit m j); reflexivity|].
-    symmetry. change 255%N with (N.ones 8). apply N.ones_spec_low. exact L.
-  - replace (N.testbit x j) with false; [reflexivity|]. symmetry.
-    destruct (N.eq_dec x 0) as [->|Hn]; [apply N.bits_0|]. apply N.bits_above_log2.
-    apply N.lt_le_trans with 8%N; [|exact G]. apply N.log2_lt_pow2; [lia|exact Hx].
-Qed.
-
-Ltac is_zconst z := match z with Z0 => idtac | Zpos _ => idtac | Zneg _ => idtac end.
-
-(* facts lia cannot derive by itself: ranges of bitwise and, of powers of two with a bounded exponent *)
-Ltac pose_facts :=
-  repeat match goal with
-  | |- context[Z.land ?a ?b] =>
-      lazymatch goal with H : 0 <= Z.land a b <= a |- _ => fail | _ => idtac end;
-      pose proof (land_range a b ltac:(lia) ltac:(lia))
-  | H : Forall (fun x => (x < 256)%N) ?b |- context[uget ?b ?u] =>
-      lazymatch goal with H' : 0 <= Z.of_N (uget b u) <= 255 |- _ => fail | _ => idtac end;
-      pose proof (uget_lt256 b u H)
-  | |- context[N.shiftr ?a ?k] =>
-      lazymatch goal with H : (N.shiftr a k <= a)%N |- _ => fail | _ => idtac end;
-      pose proof (Nshiftr_le a k)
-  | |- context[N.shiftl ?a ?k] =>
-      lazymatch a with 1%N => fail | _ => idtac end;
-      lazymatch goal with H : (N.shiftl a k < _)%N |- _ => fail | _ => idtac end;
-      first [ pose proof (Nshiftl_bound a k 8 7 ltac:(lia) ltac:(lia)) | pose proof (Nshiftl_bound a k 16 7 ltac:(lia) ltac:(lia))
-            | pose proof (Nshiftl_bound a k 8 15 ltac:(lia) ltac:(lia)) | pose proof (Nshiftl_bound a k 16 15 ltac:(lia) ltac:(lia)) ]
-  | |- context[N.shiftl 1 ?k] =>
-      lazymatch goal with H : (1 <= N.shiftl 1 k <= _)%N |- _ => fail | _ => idtac end;
-      first [ pose proof (Nshiftl1_range k 7 ltac:(lia)) | pose proof (Nshiftl1_range k 15 ltac:(lia)) | pose proof (Nshiftl1_range k 31 ltac:(lia)) ]
-  | |- context[N.land ?a ?b] =>
-      lazymatch goal with H : (N.land a b <= a /\ _)%N |- _ => fail | _ => idtac end;
-      pose proof (Nland_range a b)
-  | |- context[N.ldiff ?a ?b] =>
-      lazymatch goal with H : (N.ldiff a b <= a)%N |- _ => fail | _ => idtac end;
-      pose proof (Nldiff_range a b)
-  | |- context[N.lor ?a ?b] =>
-      lazymatch goal with H : (N.lor a b < _)%N |- _ => fail | _ => idtac end;
-      pose proof (Nlor_lt256 a b ltac:(lia) ltac:(lia))
-  | |- context[2 ^ ?k] =>
-      tryif is_zconst k then fail else idtac;
-      lazymatch goal with H : 1 <= 2 ^ k <= _ |- _ => fail | _ => idtac end;
-      first [ pose proof (pow2_range k 7 ltac:(lia)) | pose proof (pow2_range k 15 ltac:(lia)) | pose proof (pow2_range k 31 ltac:(lia)) ]
-  end.
-Ltac rng := rewrite ?Zlnot_eq; rewrite ?Z.shiftl_1_l; rewrite ?Z.shiftl_mul_pow2, ?Z.shiftr_div_pow2 by lia; pose_facts; lia.
-
-Ltac conv_step :=
-  match goal with
-  | |- context[conv ?t ?z] =>
-      lazymatch z with context[conv _ _] => fail | _ => idtac end;
-      first [ rewrite (conv_u8 z) by rng | rewrite (conv_s32 z) by rng | rewrite (conv_u16 z) by rng
-            | rewrite (conv_u32 z) by rng | rewrite (conv_u64 z) by rng ]
-  | |- context[arith ?t ?z] =>
-      lazymatch z with context[conv _ _] => fail | _ => idtac end;
-      first [ rewrite (arith_s32 z) by rng | rewrite (arith_u32 z) by rng | rewrite (arith_u8 z) by rng | rewrite (arith_u64 z) by rng ]
-  end.
-
-Lemma nth_z_zs b u : 0 <= u < Z.of_nat (List.length b) -> nth_z (zs b) u = Some (Z.of_N (uget b (Z.to_N u))).
-Proof.
-  intros H. unfold nth_z, zs, uget. destruct (Z.ltb_spec u 0); [lia|].
-  rewrite Z_N_nat. rewrite nth_error_map.
-  rewrite (nth_error_nth' b 0%N) by lia. reflexivity.
-Qed.
-
-Lemma Zquot_of_N_pos a p : Z.of_N a ÷ Zpos p = Z.of_N (a / Npos p).
-Proof. rewrite N2Z.inj_quot. reflexivity. Qed.
-Lemma Zrem_of_N_pos a p : Z.rem (Z.of_N a) (Zpos p) = Z.of_N (a mod Npos p).
-Proof. rewrite N2Z.inj_rem. reflexivity. Qed.
-Lemma Zdiv_of_N_pos a p : Z.of_N a / Zpos p = Z.of_N (a / Npos p).
-Proof. rewrite N2Z.inj_div. reflexivity. Qed.
-Lemma Zmod_of_N_pos a p : (Z.of_N a) mod (Zpos p) = Z.of_N (a mod Npos p).
-Proof. rewrite N2Z.inj_mod. reflexivity. Qed.
-Lemma Zshiftl_pos_of_N p k : Z.shiftl (Zpos p) (Z.of_N k) = Z.of_N (N.shiftl (Npos p) k).
-Proof. exact (Zshiftl_of_N (Npos p) k). Qed.
-Lemma Zshiftr_of_N_pos a p : Z.shiftr (Z.of_N a) (Zpos p) = Z.of_N (N.shiftr a (Npos p)).
-Proof. exact (Zshiftr_of_N a (Npos p)). Qed.
-Lemma Zland_of_N_pos a p : Z.land (Z.of_N a) (Zpos p) = Z.of_N (N.land a (Npos p)).
-Proof. exact (Zland_of_N a (Npos p)). Qed.
-Lemma of_N_eqb0 a : (Z.of_N a =? 0) = (a =? 0)%N.
-Proof. destruct a; reflexivity. Qed.
-Lemma of_N_eqb a b : (Z.of_N a =? Z.of_N b) = (a =? b)%N.
-Proof. destruct (N.eqb_spec a b) as [->|E]; [apply Z.eqb_refl|apply Z.eqb_neq; lia]. Qed.
-
-Lemma Zsub_pos_of_N p s : (s <= Npos p)%N -> Zpos p - Z.of_N s = Z.of_N (Npos p - s).
-Proof. intros H. rewrite N2Z.inj_sub by exact H. reflexivity. Qed.
-Lemma Zsub_of_N a b : (b <= a)%N -> Z.of_N a - Z.of_N b = Z.of_N (a - b).
-Proof. intros H. rewrite N2Z.inj_sub by exact H. reflexivity. Qed.
-Lemma Zsub_of_N_pos a p : (Npos p <= a)%N -> Z.of_N a - Zpos p = Z.of_N (a - Npos p).
-Proof. intros H. rewrite N2Z.inj_sub by exact H. reflexivity. Qed.
-Lemma Zadd_of_N a b : Z.of_N a + Z.of_N b = Z.of_N (a + b).
-Proof. rewrite N2Z.inj_add. reflexivity. Qed.
-Lemma min_of_N a b : (if b2z (Z.of_N a <? Z.of_N b) =? 0 then Z.of_N b else Z.of_N a) = Z.of_N (N.min a b).
-Proof. destruct (Z.ltb_spec (Z.of_N a) (Z.of_N b)); cbn; f_equal; lia. Qed.
-Lemma min_of_N_opt a b : (if b2z (Z.of_N a <? Z.of_N b) =? 0 then Some (Z.of_N b) else Some (Z.of_N a)) = Some (Z.of_N (N.min a b)).
-Proof. destruct (Z.ltb_spec (Z.of_N a) (Z.of_N b)); cbn; do 2 f_equal; lia. Qed.
-Lemma conv_u8_of_N x : conv TU8 (Z.of_N x) = Z.of_N (x mod 256).
-Proof. rewrite N2Z.inj_mod. reflexivity. Qed.
-Lemma conv_u16_of_N x : conv TU16 (Z.of_N x) = Z.of_N (x mod 65536).
-Proof. rewrite N2Z.inj_mod. reflexivity. Qed.
-Lemma conv_u32_of_N x : conv TU32 (Z.of_N x) = Z.of_N (x mod 4294967296).
-Proof. rewrite N2Z.inj_mod. reflexivity. Qed.
-Lemma arith_u32_of_N x : arith TU32 (Z.of_N x) = Some (Z.of_N (x mod 4294967296)).
-Proof. rewrite N2Z.inj_mod. reflexivity. Qed.
-Lemma conv_bool_of_N x : conv TBool (Z.of_N x) = b2z (negb (x =? 0)%N).
-Proof. destruct x; reflexivity. Qed.
-
-Ltac liftN :=
-  rewrite ?min_of_N, ?min_of_N_opt, ?Zadd_of_N, ?conv_bool_of_N, ?Zland_lnot_of_N, ?Zquot_of_N_pos, ?Zrem_of_N_pos, ?Zdiv_of_N_pos, ?Zmod_of_N_pos, ?Zshiftl_pos_of_N, ?Zshiftr_of_N_pos, ?Zland_of_N_pos,
-          ?Zland_of_N, ?Zlor_of_N, ?Zlxor_of_N, ?Zshiftl_of_N, ?Zshiftr_of_N, ?N2Z.id, ?of_N_eqb0, ?of_N_eqb.
-
-Lemma set_z_zs b u v : 0 <= u < Z.of_nat (List.length b) ->
-  set_z (zs b) u (Z.of_N v) = Some (zs (uset b (Z.to_N u) (fun _ => v))).
-Proof.
-  intros H. unfold set_z, zs, uset. destruct (Z.ltb_spec u 0); [lia|]. rewrite Z_N_nat.
-  assert (L : (Z.to_nat u < List.length b)%nat) by lia. clear H H0. revert L. generalize (Z.to_nat u) as k. 
-  induction b as [|h t IH]; intros k L; [cbn in L; lia|].
-  destruct k as [|k]; cbn; [reflexivity|]. rewrite IH by (cbn in L; lia). reflexivity.
-Qed.
-Lemma uset_ext_at b u f g : f (uget b u) = g (uget b u) -> uset b u f = uset b u g.
-Proof.
-  unfold uset, uget. generalize (N.to_nat u) as k. induction b as [|h t IH]; intros k E; [reflexivity|].
-  destruct k as [|k]; cbn in *; [rewrite E; reflexivity|]. rewrite (IH k E). reflexivity.
-Qed.
-
-Ltac sub_step :=
-  match goal with
-  | |- context[Zpos ?p - Z.of_N ?s] => rewrite (Zsub_pos_of_N p s) by rng
-  | |- context[Z.of_N ?a - Z.of_N ?b] => rewrite (Zsub_of_N a b) by rng
-  | |- context[Z.of_N ?a - Zpos ?p] => rewrite (Zsub_of_N_pos a p) by rng
-  end.
-Ltac wrap_step :=
-  match goal with
-  | |- context[conv TU8 (Z.of_N ?x)] => rewrite (conv_u8_of_N x)
-  | |- context[conv TU16 (Z.of_N ?x)] => rewrite (conv_u16_of_N x)
-  | |- context[conv TU32 (Z.of_N ?x)] => rewrite (conv_u32_of_N x)
-  | |- context[arith TU32 (Z.of_N ?x)] => rewrite (arith_u32_of_N x)
-  end.
-
-Ltac guard_step :=
-  match goal with
-  | |- context[(?a <? 0) || (?n <=? ?a)] => replace ((a <? 0) || (n <=? a)) with false by (symmetry; rng)
-  | |- context[if ?a <? 0 then None else _] => replace (a <? 0) with false by (symmetry; rng)
-  end.
-
-Ltac sym_exec :=
-  repeat (progress cbn -[conv arith Z.shiftr Z.shiftl Z.land Z.lor Z.lxor Z.lnot Z.quot Z.rem Z.div Z.modulo Z.pow nth_z set_z zs Z.of_N N.shiftl N.shiftr N.land N.lor N.lxor N.ldiff N.div N.modulo N.pow N.sub N.add N.min N.mul bget bset Z.add Z.sub Z.opp Z.mul]
-          || conv_step || guard_step || (progress liftN) || sub_step || wrap_step
-          || (rewrite nth_z_zs by rng) || (rewrite set_z_zs by rng)).
 
 Theorem src_BitArray_get cap b n : 1 <= cap <= 255 -> Forall (fun x => (x < 256)%N) b -> Z.of_nat (List.length b) = (cap + 7) / 8 -> Z.of_N n < cap ->
   result (run leaf_ftable (ba_consts cap) BitArrayT_13__get_u32 [Z.of_N n] [] [("_storage", zs b)])
@@ -409,7 +144,7 @@ Proof.
   pose proof (shiftr3 c) as Hs3. pose proof (land7 c) as Hl7.
   sym_exec. norm_state.
   rewrite bset_uset, <- lor_mod256 by (pose proof (uget_lt256 buf (N.shiftr c 3) Hb) as HH; unfold uget in HH; unfold bget; lia).
-  reflexivity.
+  close_min.
 Qed.
 
 Lemma exec_while_unfold ft cs f st c b :
@@ -507,26 +242,4 @@ Proof.
     as (y1 & y2 & y3 & y4 & y5 & ib' & E); try assumption; try lia.
   unfold w8_state in E. rewrite E. unfold write.
   destruct (write_loop (N.to_nat W) buf c item W) as [buf' c']. reflexivity.
-Qed.
-
-(* ---------- the static constants of BitArrayT<N>: CAPACITY = N, UNIT_COUNT = contain(N, 8) = ceil(N / 8), for every N up to 255 ---------- *)
-Theorem src_BitArray_consts cap : 1 <= cap <= 255 ->
-  build_consts leaf_ftable BitArrayT_13_consts [("NCapacity", cap)] = Some (ba_consts cap).
-Proof.
-  intros Hcap. unfold build_consts, BitArrayT_13_consts, ba_consts.
-  sym_exec.
-  rewrite Z.quot_div_nonneg by lia.
-  replace (cap + 8 - 1) with (cap + 7) by lia. reflexivity.
-Qed.
-
-(* contain(x, to) of utility.hpp at the instantiation BitArrayT and StreamBufferT use *)
-Theorem src_contain_u8 x t : 0 <= x <= 255 -> 1 <= t <= 255 ->
-  call2 leaf_ftable "contain_u8_s32" x t = Some ((x + t - 1) / t).
-Proof.
-  intros Hx Ht. unfold call2.
-  assert (0 <= (x + t - 1) / t) by (apply Z.div_pos; lia).
-  assert ((x + t - 1) / t <= 255) by (apply Z.div_le_upper_bound; [lia|nia]).
-  assert (Hq : (x + t - 1) ÷ t = (x + t - 1) / t) by (apply Z.quot_div_nonneg; lia).
-  sym_exec.
-  destruct (Z.eqb_spec t 0) as [E|_]; [lia|]. cbn [bind]. rewrite Hq, conv_u8 by lia. reflexivity.
 Qed.
